@@ -148,7 +148,11 @@ def run_sim(sims, scratch, seed):
             x['id'] = 'spec/%s/%d' % (cfgname, x['tid'])
             x['results'] = []
         outs += o
-        stats.append(dict(cfg=cfgname, behaviours=len(behs), steps=sum(x['steps'] for x in o),
+        acts = collections.Counter()
+        for x in o:
+            for l in x['labels']:
+                acts[l[0] if l[0] not in ('job', 'job_begin') else '%s:%s:%s' % (l[0], l[1], l[3])] += 1
+        stats.append(dict(cfg=cfgname, behaviours=len(behs), steps=sum(x['steps'] for x in o), actions=dict(acts),
                           jobs=sum(x['jobs'] for x in o),
                           divergent=sum(1 for x in o if x['div']),
                           errors=sum(1 for x in o if x['error'])))
@@ -184,7 +188,7 @@ def _sysrun(tier, seed, log=print):
         log('[2/5] TLC -simulate -> replay of specification behaviours on the real code')
         sim_outs, sim_stats = run_sim(SIM_CFGS[tier], scratch, seed)
         for s in sim_stats:
-            log('      %s' % s)
+            log('      %s' % {k: v for k, v in s.items() if k != 'actions'})
         log('[3/5] scripted families on the real code')
         scns = families.all_scenarios(seed, tier)
         if tier == 'quick':
